@@ -535,7 +535,8 @@ def main(tier):
                    "viewer": b["vps"][c["c"][3] - 1], "expected": c["ans"], "observed": r["obs"]}, limit=4)
 
     # ---- the `can see` operator inside compiled programs (3D), all occluders present
-    ops = [c for bi, c in chosen if batches[bi]["mode"] == "3D" and c["ans"][-1] != "free"]
+    # (cases whose target touches a window edge are left out: the implementation may assert there, a don't-care)
+    ops = [c for bi, c in chosen if batches[bi]["mode"] == "3D" and c["ans"][-1] != "free" and not c["edge"]]
     rng.shuffle(ops)
     ops = ops[: (120 if tier == "quick" else 1500)]
     op_chunks = [(batches[0], ops[i : i + 20]) for i in range(0, len(ops), 20)]
@@ -565,6 +566,35 @@ def main(tier):
     ck.cov["explanation"] = ("TLC exhaustive over the generated cross product (templates x Q x R x viewers x occluder prefixes); "
                              "the quick tier takes a seeded subset of the cube rotations and replays half of the 3D box cases")
     return ck.finish()
+
+
+def replay(path):
+    """./check C17 --replay <file>: re-execute one recorded case on the real code."""
+    doc = json.load(open(path))
+    print(json.dumps({k: doc.get(k) for k in ("what", "mode", "case", "k", "expected", "as_implemented", "deviation", "observed")}, indent=1))
+    if "template" not in doc:  # a `can see` operator case: the program text is the case
+        import scenic
+        from scenic.core.distributions import RejectionException
+
+        print(doc["program"])
+        try:
+            scenic.scenarioFromString(doc["program"], mode2D=False).generate(maxIterations=1, verbosity=0)
+            obs = True
+        except RejectionException:
+            obs = False
+        print("re-observed `require viewer can see tgt`:", obs, "expected:", doc.get("expected"))
+        return 0 if tri(obs) == doc.get("expected") else 1
+    b = {"mode": doc["mode"], "tpls": [doc["template"]], "qs": [doc["Q"]], "rs": [doc["R"]], "vps": [doc["viewer"]]}
+    case = {"c": [1, 1, 1, 1], "den": doc["den"], "tgt": doc["target_world"], "occ": doc["occluders_world"],
+            "cam": None, "ans": doc["expected"], "impl": doc["as_implemented"], "dev": doc["deviation"]}
+    case["cam"] = [0, 0, 0]  # the camera is re-derived by the real code; the glue check is not repeated here
+    r = replay_cases((b, [case]))[0]
+    print("re-observed canSee per occluder prefix:", r["obs"], "errors:", r["kerr"] or r["err"], "visibleRegion:", r["vr"])
+    bad = [k for k, (e, o) in enumerate(zip(doc["expected"], r["obs"])) if e != "free" and (o is None or e != tri(o))]
+    print("disagreeing prefixes now:", bad)
+    if doc.get("scenic_program"):
+        print(doc["scenic_program"])
+    return 1 if bad else 0
 
 
 if __name__ == "__main__":
